@@ -239,6 +239,10 @@ def features(events, obs):
             w = o.split()
             if w[0] == "fire":
                 f.add("fire_" + (w[3] if w[3] != "err" else w[4]))
+                if w[3] == "ok" and len(w) > 4 and len(w[4]) == 8:
+                    f.add("fire_ok_header_only_response")
+                elif w[3] == "ok" and len(w) > 4 and len(w[4]) < 24:
+                    f.add("fire_ok_response_shorter_than_echo")
             elif w[0] == "hook":
                 f.add("hook_in_" + op)
             elif w[0] in ("unexpected", "raise", "lose", "down", "setTimer", "cancelTimer", "cancelConnect", "writeLost"):
@@ -342,6 +346,9 @@ def run_shard(seed, n, profiles, maxlen=None, prefix=None, mons=("c06", "c10"), 
             hist[k] = hist.get(k, 0) + 1
             k = "op " + e.split()[0]
             hist[k] = hist.get(k, 0) + 1
+            if e.startswith("lost") and "badOp" not in ol:
+                k = "sc connection lost with reason " + (e.split()[1] if " " in e else "done")
+                hist[k] = hist.get(k, 0) + 1
         fs = features(events, obs)
         for x in fs:
             hist["sc " + x] = hist.get("sc " + x, 0) + 1
@@ -390,13 +397,14 @@ def run_shards(ctx, shards, workers):
 
 F1 = "0000000c" + "00000001" + "ee" * 8
 F2 = "0000000c" + "00000002" + "ee" * 8
+H1 = "00000004" + "00000001"  # a header-only response: the correlation id and nothing else
 ALPHABET = [
     "make 1 1", "make 2 1", "make 2 0", "make 2 0 hook close", "make 1 1 hook cancel 2", "make 2 0 hook cancel 1",
     "make 1 1 hook make 2 1", "make 2 0 hook disconnect", "make 2 0 hook cancel 1 ; close", "stubborn 1", "cancel 1", "cancel 2", "connOk", "connFail", "advance 1", "advance 1/2",
-    "bytes " + F1, "bytes " + F2, "bytes " + F1[:12], "bytes " + F1[12:], "bytes " + F2 + F1, "bytes 80000000",
+    "bytes " + F1, "bytes " + F2, "bytes " + F1[:12], "bytes " + F1[12:], "bytes " + F2 + F1, "bytes 80000000", "bytes " + H1,
     "lost", "close", "disconnect", "meta 2 9093", "sync ok", "sync fail",
 ]
-SMALL_ALPHABET = ["make 1 1", "make 2 1", "cancel 1", "connOk", "connFail", "advance 1", "bytes " + F1, "bytes " + F2, "lost", "close", "disconnect",
+SMALL_ALPHABET = ["make 1 1", "make 2 1", "cancel 1", "connOk", "connFail", "advance 1", "bytes " + F1, "bytes " + F2, "lost lost", "close", "disconnect",
                   "sync ok", "sync fail", "ckind connecting"]
 EX_HEADER = (1, 9092, ["1"])
 
